@@ -5,6 +5,7 @@ import (
 	"context"
 	"errors"
 	"fmt"
+	"github.com/ajitpratap0/GoSQLX/pkg/formatter"
 	"runtime/debug"
 	"strings"
 	"testing"
@@ -134,6 +135,8 @@ var prods = []prod{
 	{"future_values_derived", Q, E, "SELECT * FROM (VALUES (", ")) v", "place"},
 	{"future_in_tuple_subquery", E, Q, "(a, b) IN (", ")", ""},
 	{"future_array_subquery", E, Q, "ARRAY(", ")", ""},
+	// (appended: listed findings refer to productions by index)
+	{"match_against_search", E, E, "MATCH (a) AGAINST (", ")", ""},
 }
 
 func future(p prod) bool { return strings.HasPrefix(p.Name, "future_") }
@@ -192,11 +195,11 @@ func terminal(k kind) string {
 }
 
 type NestCase struct {
-	Top     int   `json:"top"`
-	Pattern []int `json:"pattern"` // production indices, repeated cyclically
-	Depth   int   `json:"depth"`   // levels: productions applied, not counting clause placements
-	Sep     string `json:"sep"`    // "" (one line) or "\n" after each opener
-	Child   bool  `json:"child,omitempty"`
+	Top     int    `json:"top"`
+	Pattern []int  `json:"pattern"` // production indices, repeated cyclically
+	Depth   int    `json:"depth"`   // levels: productions applied, not counting clause placements
+	Sep     string `json:"sep"`     // "" (one line) or "\n" after each opener
+	Child   bool   `json:"child,omitempty"`
 }
 
 func (c NestCase) names() string {
@@ -564,6 +567,14 @@ func (c LimitCase) build() []byte {
 			return b[:n]
 		case "long_identifier":
 			return []byte("SELECT " + strings.Repeat("a", n-7))
+		case "all_blanks":
+			return bytes.Repeat([]byte(" "), n)
+		case "all_blank_lines":
+			return bytes.Repeat([]byte(" \n"), n/2+1)[:n]
+		case "leading_blanks":
+			return []byte(strings.Repeat(" ", n-8) + "SELECT 1")
+		case "one_line_comment":
+			return []byte("--" + strings.Repeat("c", n-2))
 		}
 	case "tokens":
 		n := tokenizer.MaxTokens + c.Delta // tokens besides EOF
@@ -630,6 +641,29 @@ func oracleLimit(c LimitCase) error {
 		}},
 		{"gosqlx.ParseBytes", func() (int, error) { _, err := gosqlx.ParseBytes(in); return -1, err }},
 		{"parser.ValidateBytes", func() (int, error) { return -1, parser.ValidateBytes(in) }},
+		{"parser.Validate", func() (int, error) { return -1, parser.Validate(string(in)) }},
+		{"parser.ValidateBytesWithDialect", func() (int, error) { return -1, parser.ValidateBytesWithDialect(in, keywords.DialectMySQL) }},
+		{"parser.ParseBytes", func() (int, error) { _, err := parser.ParseBytes(in); return -1, err }},
+		{"parser.ParseBytesWithDialect", func() (int, error) {
+			_, err := parser.ParseBytesWithDialect(in, keywords.DialectPostgreSQL)
+			return -1, err
+		}},
+		{"gosqlx.Validate", func() (int, error) { return -1, gosqlx.Validate(string(in)) }},
+		{"gosqlx.Format", func() (int, error) {
+			_, err := gosqlx.Format(string(in), gosqlx.DefaultFormatOptions())
+			return -1, err
+		}},
+		{"formatter.Format", func() (int, error) {
+			_, err := formatter.New(formatter.Options{}).Format(string(in))
+			return -1, err
+		}},
+		{"gosqlx.ParseWithRecovery", func() (int, error) {
+			_, errs := gosqlx.ParseWithRecovery(string(in))
+			if len(errs) > 0 {
+				return -1, errs[0]
+			}
+			return -1, nil
+		}},
 	}
 	want := ""
 	switch {
@@ -677,10 +711,10 @@ func short(err error) string {
 }
 
 func TestSizeAndTokenLimits(t *testing.T) {
-	hx.Rule("size_and_token_limits", "inputs of exactly MaxInputSize-1, MaxInputSize, MaxInputSize+1 (and +/- 4096) bytes in five shapes, and of exactly MaxTokens-1, MaxTokens, MaxTokens+1 tokens in three layouts x trailing bytes after the last token (none, newline, blanks, line comment, block comment), through Tokenize, TokenizeContext, gosqlx.ParseBytes, parser.ValidateBytes; oracle: E1006 / E1007 exactly when the length / token count exceeds the limit, never at or below it (any other outcome is allowed there); enumerated exhaustively; non-trivial = within +/-1 of a limit")
+	hx.Rule("size_and_token_limits", "inputs of exactly MaxInputSize-1, MaxInputSize, MaxInputSize+1 (and +/- 4096) bytes in nine shapes (incl. nothing but blanks or blank lines, blanks before the statement, one comment), and of exactly MaxTokens-1, MaxTokens, MaxTokens+1 tokens in three layouts x trailing bytes after the last token (none, newline, blanks, line comment, block comment), through 13 entry points (Tokenize, TokenizeContext, the parser.Validate* and Parse* wrappers, gosqlx.ParseBytes / Validate / Format / ParseWithRecovery, formatter.Format); oracle: E1006 / E1007 exactly when the length / token count exceeds the limit, never at or below it (any other outcome is allowed there); enumerated exhaustively; non-trivial = within +/-1 of a limit")
 	hx.Exhaustive("size_and_token_limits", true)
 	var cases []LimitCase
-	for _, sh := range []string{"one_literal", "one_block_comment", "trailing_blanks", "many_lines", "long_identifier"} {
+	for _, sh := range []string{"one_literal", "one_block_comment", "trailing_blanks", "many_lines", "long_identifier", "all_blanks", "all_blank_lines", "leading_blanks", "one_line_comment"} {
 		for _, d := range []int{-4096, -1, 0, 1, 4096} {
 			cases = append(cases, LimitCase{Kind: "bytes", Shape: sh, Delta: d})
 		}
